@@ -72,6 +72,9 @@ type c05Snap struct {
 	URI        string
 	IsHTTP     bool
 	Group      string
+	// what ParseParams / ParseToken delivered into a json.RawMessage (nil: left untouched)
+	ParsedParams, ParsedToken json.RawMessage
+	ParsePanic                string
 }
 
 type c05HandlerSpec struct {
@@ -118,6 +121,21 @@ var c05Outcomes = []string{"marker", "marker", "marker", "error-reserr", "error-
 var errWrapped = fmt.Errorf("wrapped: %w", errRes)
 
 func c05Snapshot(marker string, r *res.Request) c05Snap {
+	sn := c05SnapshotFields(marker, r)
+	if pn := try(func() {
+		if r.Type() == "call" || r.Type() == "auth" {
+			r.ParseParams(&sn.ParsedParams)
+		}
+		if r.Type() != "get" {
+			r.ParseToken(&sn.ParsedToken)
+		}
+	}); pn != nil {
+		sn.ParsePanic = fmt.Sprint(pn)
+	}
+	return sn
+}
+
+func c05SnapshotFields(marker string, r *res.Request) c05Snap {
 	return c05Snap{Marker: marker, RName: r.ResourceName(), Params: r.PathParams(), Query: r.Query(), Type: r.Type(), Method: r.Method(),
 		CID: r.CID(), RawParams: r.RawParams(), RawToken: r.RawToken(), Header: r.Header(), Host: r.Host(), RemoteAddr: r.RemoteAddr(), URI: r.URI(), IsHTTP: r.IsHTTP(), Group: r.Group()}
 }
@@ -171,9 +189,14 @@ func c05Register(s *res.Service, specs []c05HandlerSpec, st *c05State) {
 		}
 		for _, meth := range sp.Call {
 			m := mk("call:" + meth)
-			opts = append(opts, res.Call(meth, func(r res.CallRequest) {
+			h := func(r res.CallRequest) {
 				c05Handle(st, m, r, func(r *res.Request) { r.OK(m) })
-			}))
+			}
+			if meth == "set" && len(sp.Pattern)%2 == 0 {
+				opts = append(opts, res.Set(h)) // the documented alias of Call("set", h)
+			} else {
+				opts = append(opts, res.Call(meth, h))
+			}
 		}
 		for _, meth := range sp.Auth {
 			m := mk("auth:" + meth)
@@ -423,6 +446,28 @@ func c05CheckFields(c *core.Ctx, sn c05Snap, sent c05Sent, desc map[string]inter
 		}
 	} else if sn.RawToken != nil {
 		bad("token", string(sn.RawToken), "<nil>")
+	}
+	// the parsing helpers deliver the same data (and leave the target alone when the field is absent)
+	if sn.ParsePanic != "" {
+		bad("ParseParams/ParseToken panic", sn.ParsePanic, "<no panic on valid JSON into a json.RawMessage>")
+	}
+	if sn.Type == "call" || sn.Type == "auth" {
+		if sent.set["params"] && sent.Params != "null" {
+			if !jsonEqual(sn.ParsedParams, []byte(sent.Params)) {
+				bad("ParseParams", string(sn.ParsedParams), sent.Params)
+			}
+		} else if !sent.set["params"] && sn.ParsedParams != nil {
+			bad("ParseParams", string(sn.ParsedParams), "<untouched>")
+		}
+	}
+	if sn.Type != "get" {
+		if sent.set["token"] && sent.Token != "null" {
+			if !jsonEqual(sn.ParsedToken, []byte(sent.Token)) {
+				bad("ParseToken", string(sn.ParsedToken), sent.Token)
+			}
+		} else if !sent.set["token"] && sn.ParsedToken != nil {
+			bad("ParseToken", string(sn.ParsedToken), "<untouched>")
+		}
 	}
 	if sent.set["header"] {
 		if !reflect.DeepEqual(sn.Header, sent.Header) {
